@@ -37,7 +37,10 @@ def run(v, tier, seed, replay):
         cmds = [c.replace(" 4000", " 60") if c.startswith("STEPPER") and " 0 " in c else c for c in cmds]
         cmds = [("STEPPER %s %s 0 150" % tuple(c.split()[1:3])) if (c.startswith("STEPPER") and c.split()[3] == "0") else c for c in cmds]
         cmds = [("TOL %s 1e-2 1e-2" % c.split()[1]) if c.startswith("TOL") else c for c in cmds]
-        rc, lines, err = solver.run_script(exe, cmds)
+        rc, lines, err = solver.run_script(exe, cmds, timeout=240)
+        if solver.died(rc):
+            solver.crash_violation(v, "protocol", rc, cmds, err)
+            continue
         if rc != 0:
             raise Infra("solver_drive failed: " + err[-500:])
         ev = [l for l in lines if l.startswith("{")]
@@ -74,7 +77,7 @@ def run(v, tier, seed, replay):
         cmds.append("DESTROY 2")
         exp.append(e)
     cmds.append("DESTROY 1")
-    rc, lines, err = solver.run_script(exe, cmds)
+    rc, lines, err = solver.run_script(exe, cmds, timeout=240)
     outs = [l.split() for l in lines if l.startswith("STEPCTL ")]
     if rc != 0 or len(outs) != len(exp):
         raise Infra("step-control replay failed: rc=%s %d/%d %s" % (rc, len(outs), len(exp), err[-300:]))
@@ -108,6 +111,9 @@ def run(v, tier, seed, replay):
         e1 = one[(tuple(e["cfg"]), tuple(e["hist"][0]))]
         cases.append(dict(edges=[e1, e], mode=solver.MODES[hsh % len(solver.MODES)], t04=(0 if e["hist"][0][2] else [0, -10, 4000][(hsh >> 4) % 3]), move=(hsh >> 8) % 3, order=hsh))
     res, fails = solver.flow_replay(exe, cases)
+    for f_ in [x for x in fails if x.startswith("CRASH:")]:
+        v.violation("flow/crash", f_, None)
+    fails = [x for x in fails if not x.startswith("CRASH:")]
     if fails:
         raise Infra("; ".join(fails[:2]))
     worst = 0.0
@@ -136,6 +142,9 @@ def run(v, tier, seed, replay):
         raise Infra("step-control/Evolve replay has nothing to run (cfgs=%s histories=%d)" % (cfgs, len(evh)))
     smodes = [("rk8pd", 1), ("rkf45", 1), ("rk4", 0), ("rkck", 1), ("msadams", 1), ("rk8pd", 0)]
     sres, sfails = solver.stepctl_replay(exe, evh, one, [list(c) for c in cfgs], smodes)
+    for f_ in [x for x in sfails if x.startswith("CRASH:")]:
+        v.violation("stepctl/evolve/crash", f_, None)
+    sfails = [x for x in sfails if not x.startswith("CRASH:")]
     if sfails:
         raise Infra("; ".join(sfails[:2]))
     judged = refused = 0
